@@ -7,6 +7,7 @@ import (
 	"errors"
 	"fmt"
 	"github.com/bitcoin-sv/block-headers-service/config"
+	"github.com/jmoiron/sqlx"
 	"math/rand"
 	"os"
 	"os/exec"
@@ -138,10 +139,17 @@ func ReorgHistory(rng *rand.Rand, maxDepth int) gen.History {
 	g := rig.Genesis()
 	var out gen.History
 	counter := 0
+	var lastMerkle refmodel.Hash
 	mk := func(prev refmodel.Hash, bits uint32) refmodel.Hdr {
 		counter++
 		h := refmodel.Hdr{Prev: prev, Bits: bits}
 		gen.Fields(rng, &h, false, counter)
+		// now and then a block with the merkle root of an earlier block (two blocks mined from one template; mainnet has
+		// such pairs): a different header all the same
+		if counter > 1 && rng.Intn(8) == 0 {
+			h.Merkle = lastMerkle
+		}
+		lastMerkle = h.Merkle
 		return h
 	}
 	// main chain
@@ -535,6 +543,72 @@ func body(r *ev.Run) {
 			}
 		}
 		r.Count("interrupted_first_starts", 1)
+		r.Case("", false)
+	})
+	// the genesis insert of the very first start fails (a write error instead of a kill): either the start is refused, or
+	// whatever was acknowledged afterwards must be where an uninterrupted run puts it once the fault is gone and the same
+	// headers have been delivered again
+	r.Do("first-start/genesis-insert-fails", func() {
+		caseID := "first-start/genesis-insert-fails"
+		dir := filepath.Join(r.Scratch, "c05")
+		_ = os.MkdirAll(dir, 0o755)
+		st, err := rig.New(rig.Options{Dir: dir, Name: "first-err.db", NoHTTP: true})
+		if err != nil {
+			r.Violate("harness|rig", err.Error(), caseID, nil)
+			return
+		}
+		defer st.Destroy()
+		if _, err := st.DB.Exec(`DELETE FROM headers; CREATE TRIGGER verif_c05_nogenesis BEFORE INSERT ON headers WHEN NEW.height = 0 BEGIN SELECT RAISE(ABORT, 'verif: injected write failure (genesis insert)'); END;`); err != nil {
+			r.Violate("harness|sql", err.Error(), caseID, nil)
+			return
+		}
+		rng := r.Rand(caseID)
+		hist := ReorgHistory(rng, 3)
+		if err := st.Restart(); err != nil {
+			r.Count("first_starts_refused_when_the_genesis_insert_fails", 1)
+			// the refused start left the file behind: reopen it raw to lift the fault
+			if db, derr := sqlx.Open("sqlite3", "file:"+st.Path); derr == nil {
+				_, _ = db.Exec(`DROP TRIGGER IF EXISTS verif_c05_nogenesis`)
+				_ = db.Close()
+			}
+		} else {
+			// the start went through with the write lost: ingestion is acknowledged on top of that
+			for _, h := range hist.Hdrs {
+				_ = st.Add(h)
+			}
+			r.Count("first_starts_accepted_although_the_genesis_insert_failed", 1)
+			if _, err := st.DB.Exec(`DROP TRIGGER IF EXISTS verif_c05_nogenesis`); err != nil {
+				r.Violate("harness|sql", err.Error(), caseID, nil)
+				return
+			}
+		}
+		if err := st.Restart(); err != nil {
+			r.Violate("restart-failed|first-start|genesis-insert-fails", "database.Init failed after the write fault was gone: "+err.Error(), caseID, nil)
+			return
+		}
+		m := mb.NewModel()
+		for pass := 0; pass < 2; pass++ {
+			for _, h := range hist.Hdrs {
+				res := st.Add(h)
+				if pass == 0 {
+					m.Submit(h)
+				}
+				if res.Panic != nil {
+					r.Violate("panic|first-start|genesis-insert-fails", fmt.Sprint(res.Panic), caseID, nil)
+					return
+				}
+			}
+		}
+		t, err := snap.TakeHeaders(st.DB)
+		if err != nil {
+			r.Violate("harness|snapshot", err.Error(), caseID, nil)
+			return
+		}
+		if ds := mb.CompareTable(m, t, false); len(ds) > 0 {
+			r.Violate("final-state-differs|first-start|genesis-insert-fails", "the genesis insert of the first start failed; after the fault was gone, a restart and two deliveries of the same headers the store differs from an uninterrupted run: "+mb.DescribeDiffs(ds, 5), caseID, map[string]any{"history_hex": hist.Hex()})
+			return
+		}
+		r.Count("first_starts_with_a_failing_genesis_insert_recovered", 1)
 		r.Case("", false)
 	})
 	type deepCfg struct {
